@@ -22,10 +22,10 @@ import (
 func main() {
 	r := ev.Start("C06", "exploration")
 	r.Rule("layer 1: seeded cases = scripted log(s) (entries of all four Raft types, payload profiles from 10 B to >4 MiB, optional initial compaction marker) + 8-47 steps " +
-		"(reader queries issued as LogServer.Replicate issues them, appends, applied-index advances, compactions, delivery of the LogCompacted event at once or later, NodeDeleted), " +
+		"(reader queries issued as LogServer.Replicate issues them, appends, applied-index advances, compactions, delivery of the LogCompacted event at once or later — through ShardCache.LogCompacted, or in half of the cases through an exported LogCompacted*(shard, compaction index) method if the cache has one —, NodeDeleted), " +
 		"cache size in {1,2,3,8,100}, maxSize from 1 B to 2^64-1 incl. exact cumulative-size boundaries, 1-2 shards on one ShardCache, with or without several calls in progress; " +
 		"layer 2: real engine (SnapshotEntries 10, CompactionOverhead 3, LogCacheSize in {1,2,3,8,100}), put/delete/txn histories in phases, after each phase every start index 0..applied+2 (+2 beyond) " +
-		"on 6 real gRPC LogServers (cached/uncached reader x 200 B/1 KiB/4 MiB), then calls concurrent with a writer. " +
+		"on 6 real gRPC LogServers (cached/uncached reader x 200 B/1 KiB/4 MiB), then calls concurrent with a writer; a tailing follower polls the cached server after every proposal (so the cache holds the recent entries when a compaction happens) and after each phase the cached servers are first asked for exactly the compaction index and its neighbours. " +
 		"A case is non-trivial when at least one query was answered partly from the cache and partly from the log and at least one query came after a compaction; " +
 		"distinct by hash of the (cache shape relative to the log, query, limit class, answer length) list of its partly-cached answers")
 	r.Assume(
@@ -99,6 +99,8 @@ func main() {
 	r.FloorCount("l2_expect_leader_behind", int64(r.Pick(20, 200)))
 	r.FloorCount("l2_expect_empty_at_applied_plus_1", int64(r.Pick(10, 100)))
 	r.FloorCount("l2_logcompacted_events_seen", int64(r.Pick(4, 40))) // the event hook must be alive, else layer 2 is lenient below the first index
+	r.FloorCount("l2_tailing_follower_polls", int64(r.Pick(100, 1000)))
+	r.FloorCount("l2_requests_exactly_at_compaction_index_judged_strictly", int64(r.Pick(6, 60)))
 	r.FloorDistinct("l1_cache_size", 5)
 	r.Finish()
 }
